@@ -1107,6 +1107,16 @@ def s_div(a, b):
         c = CTX
         if c is not None and c.product_abstraction and not z3.is_rational_value(z3.simplify(a.r)):
             q = _DIV(a.r, b.r)
+            key = ("div", q.get_id())
+            if key not in c.uf_axioms_done:
+                c.uf_axioms_done.add(key)
+                x, y = a.r, b.r
+                c.add(z3.And(
+                    z3.Implies(z3.And(x == 0, y != 0), q == 0),
+                    z3.Implies(z3.Or(z3.And(x > 0, y > 0), z3.And(x < 0, y < 0)), q > 0),
+                    z3.Implies(z3.Or(z3.And(x > 0, y < 0), z3.And(x < 0, y > 0)), q < 0),
+                    z3.Implies(z3.And(x == y, y != 0), q == 1),
+                ))
         else:
             q = a.r / r_ite(b_not(bz) if not _isc(bz) else (not bz), b.r, z3.RealVal(1)) if not (_isc(bz) and bz) else z3.RealVal(0)
     q = r_ite(b.inf(), z3.RealVal(0), q)
